@@ -130,13 +130,18 @@ Proof.
   split; [exact Hu|].
   destruct (wclosed x) eqn:Ew; [reflexivity|exfalso].
   destruct (hand x) as [v|] eqn:Eh.
-  - pose proof (noneb_spec _ _ _ _ i (LFwdAbort i) Hq Hlt ltac:(cbn; tauto)) as N.
-    cbn [stepx fix_fwd] in N. unfold with_sub in N. rewrite Hx, Hl, Eh, Hc, Ew in N. cbn in N. discriminate.
+  - destruct (wch x) as [|w r] eqn:Ewc.
+    + (* room in the wrapped channel: the forwarder can put *)
+      pose proof (noneb_spec _ _ _ _ i (LFwdPut i) Hq Hlt ltac:(cbn; tauto)) as N.
+      cbn [stepx] in N. unfold with_sub in N. rewrite Hx, Eh, Ewc in N. discriminate.
+    + (* full, and the consumer may never read: the repaired forwarder discards *)
+      pose proof (noneb_spec _ _ _ _ i (LFwdAbort i) Hq Hlt ltac:(cbn; tauto)) as N.
+      cbn [stepx fix_fwd] in N. unfold with_sub in N. rewrite Hx, Hl, Eh, Ewc, Hc in N. discriminate.
   - destruct (bch x) as [|v r] eqn:Eb.
     + pose proof (noneb_spec _ _ _ _ i (LFwdClose i) Hq Hlt ltac:(cbn; tauto)) as N.
       cbn [stepx] in N. unfold with_sub in N. rewrite Hx, Hl, Eh, Eb, K2, Hu, Ew in N. cbn in N. discriminate.
     + pose proof (noneb_spec _ _ _ _ i (LFwdTake i) Hq Hlt ltac:(cbn; tauto)) as N.
-      cbn [stepx] in N. unfold with_sub in N. rewrite Hx, Hl, Eh, Eb, Ew in N. discriminate.
+      cbn [stepx] in N. unfold with_sub in N. rewrite Hx, Hl, Eh, Eb in N. discriminate.
 Qed.
 
 (* ---------------------------------------------------------------- the theorems (repaired model) *)
@@ -161,7 +166,7 @@ Proof.
   intros Hr Hx Hc. pose proof (inv_reach cfg ls s Hr) as [_ Hs]. specialize (Hs i x Hx).
   unfold sub_ok in Hs. destruct Hs as (K1 & K2 & K3 & K4 & _). unfold cln_alive, fwd_alive. split.
   - destruct (unsub x); [specialize (K3 eq_refl); congruence|reflexivity].
-  - intros ->. destruct (wclosed x); [destruct (K4 eq_refl) as [K _]; congruence|reflexivity].
+  - intros ->. destruct (wclosed x); [destruct (K4 eq_refl) as [K _]; specialize (K3 K); congruence|reflexivity].
 Qed.
 
 (* hence, in every quiescent state, forwarders = cleanup goroutines = open subscriptions and no
@@ -204,7 +209,7 @@ Proof.
   induction ls as [|l ls IH]; intros g g' H.
   - injection H as <-. reflexivity.
   - cbn [run] in H. destruct (gstep fx c g l) as [g1|] eqn:E; [|discriminate].
-    destruct l as [ml|ok|f cl b]; cbn [erase run].
+    destruct l as [ml|ok|f cl b|f cl b]; cbn [erase run].
     + assert (Hs : stepx fx c (gm g) ml = Some (gm g1)).
       { unfold gstep, lift in E. destruct ml;
           try (destruct (gcall g); [discriminate|]);
@@ -216,6 +221,21 @@ Proof.
       destruct (Bool.eqb b ok && is_nil (pend (gm g))); [|discriminate]. injection E as <-. exact (IH _ _ H).
     + unfold gstep in E. match type of E with (if ?c then _ else _) = _ => destruct c end; [|discriminate].
       injection E as <-. exact (IH _ _ H).
+    + unfold gstep in E. match type of E with (if ?c then _ else _) = _ => destruct c end; [|discriminate].
+      injection E as <-. exact (IH _ _ H).
+Qed.
+
+(* a dump taken after all timers is accepted only in a quiescent state, with the model's numbers -
+   which by fsm_census_exact are then the open subscriptions *)
+Theorem gquiet_label_sound fx c g f cl b g' :
+  gstep fx c g (GQuiet f cl b) = Some g' ->
+  g' = g /\ quietb fx c (gm g) = true /\
+  f = forwarders (gm g) /\ cl = cleaners (gm g) /\ b = senders (gm g).
+Proof.
+  unfold gstep. intros H.
+  match type of H with (if ?c then _ else _) = _ => destruct c eqn:E end; [|discriminate].
+  injection H as <-. repeat (apply andb_prop in E as [E ?]).
+  repeat match goal with X : Nat.eqb _ _ = true |- _ => apply Nat.eqb_eq in X end. auto.
 Qed.
 
 Theorem gsnap_label_sound fx c g f cl b g' :
@@ -252,11 +272,12 @@ Lemma leak_legacy_accumulates :
             quietb false fsm_cfg s = true /\ open_subs s = 0 /\ forwarders s = 3.
 Proof. eexists. split; [vm_compute; reflexivity|]. repeat split; vm_compute; reflexivity. Qed.
 
-(* the same histories on the repaired model: the forwarder can give up, and then nothing is left *)
+(* the same history on the repaired model: the forwarder can discard the value and then ends on the
+   closed manager channel; nothing is left *)
 Lemma leak_repaired :
   run (step fsm_cfg) init leak_witness <> None /\
   (forall s, run (step fsm_cfg) init leak_witness = Some s -> quietb fix_fwd fsm_cfg s = false) /\
-  exists s, run (step fsm_cfg) init (leak_witness ++ [LFwdAbort 0]) = Some s /\
+  exists s, run (step fsm_cfg) init (leak_witness ++ [LFwdAbort 0; LFwdClose 0]) = Some s /\
             quietb fix_fwd fsm_cfg s = true /\ forwarders s = 0 /\ census s = 0.
 Proof.
   split; [vm_compute; discriminate|]. split.
@@ -265,16 +286,17 @@ Proof.
 Qed.
 
 (* non-vacuity of the census theorems: three subscribe / cancel cycles during a transition burst -
-   an absent consumer (forwarder gives up), a consumer that reads one value and stops, a consumer
-   that drains - then one subscription stays open: quiescent, census 2 (its forwarder + cleanup) *)
+   an absent consumer (the forwarder discards two values), a consumer that reads one value and stops,
+   a consumer that drains - then one subscription stays open: quiescent, census 2 (its forwarder +
+   cleanup) *)
 Definition census_run : list label :=
   [LSub; LRead 0; LOp (OTrans Booting) true; LDeliver 0; LFwdTake 0;
    LSub; LRead 1; LRecv 1 Booting;
    LOp (OTrans Running) true; LDeliver 0; LDeliver 1; LFwdTake 1; LFwdPut 1;
-   LCancel 0; LFwdAbort 0; LUnsub 0;
+   LCancel 0; LFwdAbort 0; LFwdTake 0; LFwdAbort 0; LUnsub 0; LFwdClose 0;
    LSub; LRead 2; LRecv 2 Running;
    LOp (OTrans Stopping) true; LDeliver 1; LDeliver 2; LFwdTake 1; LFwdTake 2; LFwdPut 2; LRecv 2 Stopping;
-   LCancel 1; LFwdAbort 1; LUnsub 1;
+   LCancel 1; LFwdAbort 1; LUnsub 1; LFwdClose 1;
    LCancel 2; LUnsub 2; LFwdClose 2; LRecvClosed 2;
    LSub; LRead 3].
 
